@@ -72,6 +72,13 @@ def rec_exact(seed):
         c = rng.uniform(-1, 1) * np.sqrt(a * b)
         data = 100.0 - a * (x - x0) ** 2 - b * (y - y0) ** 2 - c * (x - x0) * (y - y0)
         fq = funcs()['quadratic']
+        if variant == 'search_box' and rng.random() < 0.6:
+            # a point-symmetric source centred on a pixel near the lower / left edge (the fit box must be centred on the brightest pixel
+            # of the clipped search box)
+            x0, y0 = float(rng.randint(1, 2)), float(rng.randint(3, h - 4))
+            if rng.random() < 0.5:
+                x0, y0 = float(rng.randint(3, w - 4)), float(rng.randint(1, 2))
+            data = 80.0 * np.exp(-0.5 * (((x - x0) / 1.6) ** 2 + ((y - y0) / 1.6) ** 2)) + 1.0
         if variant == 'search_box':
             fn = lambda d, mask=None: fq(d, xpeak=int(round(x0)) + rng.choice([-1, 0, 1]), ypeak=int(round(y0)) + rng.choice([-1, 0, 1]), fit_boxsize=3,  # noqa
                                          search_boxsize=rng.choice([3, 5]), mask=mask)
